@@ -691,7 +691,10 @@ def _strip_pad(a):
 
 def _compare_row(ctx, tag, solo, batch, p, Bsz, what, witness, S=1, s=0, kp=""):
     """solo row `s` (of S multistart rows) vs batch row `s*Bsz+p`.  Returns 'same' | 'tie' | 'diff'.
-    `kp` prefixes the violation keys (used for policies that draw random numbers in inference mode)."""
+    `kp` is non-empty for policies that draw random numbers in inference mode: their logit-level differences get the
+    kinds `rng-logits:batch` (position >= 1), `rng-logits-pos0:batch` (position 0: same draws as solo for a single
+    `torch.rand(b, c)`), every other difference `rng-other:<kind>`.  A log-likelihood-only difference ("ll") does not
+    stop the remaining comparisons."""
     r_solo, r_bat = s, s * Bsz + p
     a1 = solo["actions"][r_solo].tolist()
     a2 = batch["actions"][r_bat].tolist()
@@ -729,7 +732,7 @@ def _compare_row(ctx, tag, solo, batch, p, Bsz, what, witness, S=1, s=0, kp=""):
     r1, r2 = t1.tolist(), t2.tolist()
     same_reward = t1.shape == t2.shape and bool(((t1 - t2).abs() <= 1e-5 * t1.abs().clamp(min=1.0)).all())
     if worst > LOGIT_TOL:
-        ctx.violation(_key(tag, kp + "logits_depend_on_batch"),
+        ctx.violation(_key(tag, ("rng-logits-pos0:batch" if p == 0 else "rng-logits:batch") if kp else "logits_depend_on_batch"),
                       f"{what}: per-step logits of the same instance differ by {worst:.3g} (> {LOGIT_TOL}) between solo and batch decoding",
                       {"max_logit_dev": worst, **witness})
         return "diff"
@@ -738,10 +741,10 @@ def _compare_row(ctx, tag, solo, batch, p, Bsz, what, witness, S=1, s=0, kp=""):
             u1, u2 = solo["ll"][r_solo].double().flatten(), batch["ll"][r_bat].double().flatten()
             l1, l2 = u1.tolist(), u2.tolist()
             if not (u1.shape == u2.shape and bool((((u1 - u2).abs() <= 1e-4 * u1.abs().clamp(min=1.0)) | (u1 == u2)).all())):
-                ctx.violation(_key(tag, kp + "loglik_depends_on_batch"),
+                ctx.violation(_key(tag, kp + "loglik-only_depends_on_batch"),
                               f"{what}: same actions and reward but log-likelihood {l1} (solo) vs {l2} (batch)",
                               {"ll_solo": l1, "ll_batch": l2, **witness})
-                return "diff"
+                return "ll"
         return "same"
     if gap_small:
         ctx.count("tie-skipped (top-2 logit gap < 1e-4 at some step)")
@@ -837,7 +840,7 @@ def _batch_invariance(ctx, pname, build, ename, multistart, call=None, env_facto
     kp = ""
     if consumes_rng:
         ctx.count("policies that consume the torch RNG during greedy decoding")
-        kp = "rng:"  # batch differences below cannot be separated from the random draws
+        kp = "rng-other:"  # non-logit differences of an RNG-consuming policy (never covered by a known finding)
         for alt in range(1, 9):
             other = _decode(pol, env, pool[0:1], call, seed + alt)
             rng_dev = 0.0
@@ -848,7 +851,7 @@ def _batch_invariance(ctx, pname, build, ename, multistart, call=None, env_facto
                         rng_dev = max(rng_dev, float((l1[fin] - l2[fin]).abs().max()) / max(1.0, float(l1[fin].abs().max())))
             if (other["actions"].shape != solo["actions"].shape or not bool((other["actions"] == solo["actions"]).all())
                     or rng_dev > LOGIT_TOL):
-                ctx.violation(_key(tag, "rng:depends_on_rng_state"),
+                ctx.violation(_key(tag, "rng-logits:state"),
                               "greedy decoding of the same instance ALONE gives different logits / actions under a different torch RNG state: "
                               "the policy draws random numbers in inference mode, so its answer is not a function of the instance",
                               {"max_logit_dev_between_seeds": rng_dev, "actions_seed_a": solo["actions"][0].tolist(),
@@ -867,7 +870,7 @@ def _batch_invariance(ctx, pname, build, ename, multistart, call=None, env_facto
     comps.append(("duplicates B=2", [0, 0], 1))
     comps.append(("duplicates B=3", [0, 0, 0], 2))
     comps.append(("mixed duplicates B=3", [1, 0, 1], 1))
-    results = {"same": 0, "tie": 0, "diff": 0}
+    results = {"same": 0, "tie": 0, "diff": 0, "ll": 0}
     for label, idx, p in comps:
         tdb = pool[idx]
         try:
